@@ -41,6 +41,22 @@ NEEDS = {
     "C18b": ("C18", "array-descriptor cache keyed by the digest of the edit script", "two array revisions with identical edit scripts on different bases; depends on cache capacity and scheduling"),
     "C19a": ("C19", "Revision::from treats text starting with '1' as a tail-less first revision", "an object with >= 10 revisions whose identifier is parsed back (reload, meld, API)"),
     "C19b": ("C19", "Ord ignores the tail at equal index", "same index and digest, different parents"),
+    "RC02a": ("C02", "check_delta skips the object lookup of a new revision when the block's own packs all verify", "an object deduplicated against a foreign pack whose block has not arrived (pack copied without its block), then delivery without that pack"),
+    "RC02b": ("C02", "pack indexer's escape tracking mishandles an escaped backslash before the closing quote", "a string ending in a backslash"),
+    "RC04a": ("C04", "rebuild_array_order no longer stops at the nearest full-order ancestor", "a flattened array key that disappears and reappears while one of its old elements lives on in another array"),
+    "RC04b": ("C04", "write_object returns early when the digest is in the LRU object cache", "update, unstage, identical content again, then eviction (> 16 other objects) or commit + reopen"),
+    "RC10a": ("C10", "digest comparison on raw bytes with zip() and no length check", "an item stored under a proper prefix of its digest (or upper-case hex)"),
+    "RC10b": ("C10", "meld keeps its parsed blocks, so refresh never hashes the stored copy", "a damaged local copy of a block, the same block melded from a peer, then refresh"),
+    "RC11a": ("C11", "block index = 1 + highest block the replica knows (not highest parent)", "a commit after time travel, or while a blocked block with a higher index is in storage"),
+    "RC11b": ("C11", "load_raw_delta drops an empty info object", "commit(Some({})) then meld"),
+    "RC13a": ("C13", "commit keeps an already known but unapplied block (entry().or_insert_with)", "after time travel, redoing exactly the edit and metadata an existing pack-less child block recorded (equal block digest)"),
+    "RC13b": ("C13", "load_raw_delta drops an empty info object", "commit(Some({})) then reload / meld"),
+    "RC14a": ("C14", "step budget 2*blocks+heads on reload_until's ancestor walk", "histories whose blocks average more than two parents (>=3 replicas, full-mesh sync every round)"),
+    "RC14b": ("C14", "reload_until re-indexes only the packs named by the loaded history", "an orphan pack (block write failed after the pack write, commit retried) and later time travel"),
+    "RC16a": ("C16", "intermediate array versions cached under the wrong revision", "a deleted or snapshot revision between the requested revision and the nearest cached ancestor; shows on a later walk"),
+    "RC16b": ("C16", "array-descriptor cache mutex released between check and use", "concurrent reconstruction evicting the cached ancestor (timing)"),
+    "RC18a": ("C18", "write_object returns early when the digest is in the LRU object cache (outcome depends on MELDA_DATA_CACHE_CAP)", "unstage, identical content again, commit; reopened replica"),
+    "RC18b": ("C18", "leaf cache becomes a HashSet: merge order follows hash order", "three or more concurrent versions of one array"),
     "X-F1revert": ("C08", "revert of fix 1f69feb (finding F1)", "commit with a flattened array in conflict"),
 }
 
@@ -68,7 +84,7 @@ def main():
                 first[cur] = m.group(1)
         if name in NEEDS:
             prop, what, needs = NEEDS[name]
-            origin = "independent sub-agent given only the property text and a scratch worktree" if not name.startswith("X-") else "own: revert of a fix commit"
+            origin = ("independent sub-agent (round 2: asked for triggers that randomised testing is unlikely to hit)" if name.startswith("R") else "independent sub-agent given only the property text and a scratch worktree") if not name.startswith("X-") else "own: revert of a fix commit"
         else:
             notes = open(d + "/notes.md").read() if os.path.exists(d + "/notes.md") else ""
             m = re.search(r"Property: (\S+)", notes)
